@@ -180,6 +180,34 @@ fn run_case(case: &Value) -> Value {
     match generated {
         Ok(Ok(text)) => {
             res["result"] = json!("ok");
+            if case.get("want_rest").and_then(Value::as_bool).unwrap_or(false) {
+                // every top-level item except the Rust structs generated for WGSL structs and their layout assertions:
+                // the part of the module no struct option documents (C09)
+                let names: Vec<String> = naga::front::wgsl::parse_str(wgsl)
+                    .map(|m| {
+                        m.types
+                            .iter()
+                            .filter(|(_, t)| matches!(t.inner, naga::TypeInner::Struct { .. }))
+                            .filter_map(|(_, t)| t.name.clone())
+                            .collect()
+                    })
+                    .unwrap_or_default();
+                if let Ok(file) = syn::parse_file(&text) {
+                    let mut rest = String::new();
+                    for item in &file.items {
+                        let skip = match item {
+                            syn::Item::Struct(st) => names.contains(&st.ident.to_string()),
+                            syn::Item::Const(c) => c.ident == "_",
+                            _ => false,
+                        };
+                        if !skip {
+                            rest.push_str(&quote::ToTokens::to_token_stream(item).to_string());
+                            rest.push('\n');
+                        }
+                    }
+                    res["rest"] = json!(rest);
+                }
+            }
             if want_toks {
                 match catch_unwind(AssertUnwindSafe(|| toks::tokens(&text))) {
                     Ok(Ok(t)) => res["toks"] = json!(t),
